@@ -64,6 +64,8 @@ func C10(e *Env) {
 	calls := moduleCalls(e.P)
 	r.Analysed["module_call_instructions"] = len(calls)
 	c09FlagChain(e)
+	errorFlattenRule(e, "R11.10")
+	r.Rule("R11.10", "the printed list and count contain every violation: no module code formats an error value into the text of another, the only wrapper is grouperror.Prefix (shared with C11)", 1)
 	r.Rule("R09.4", "the -i flag is a string array that reaches the payload's inputPatterns unchanged (shared with C09): a slice flag splits a path on commas, so the command reads other files than the ones it was given and fails or succeeds for the wrong input", 1)
 
 	// ---- R10.1 / R10.2
